@@ -435,9 +435,15 @@ pub fn apply_logical(kind: &'static str, m: &mut Message, cx: &FaultCtx, t: &mut
                 } else {
                     -day
                 };
-                a.scope_date = match t.below(4) {
+                let right = refm::yyyymmdd(a.instant_ns);
+                a.scope_date = match t.below(8) {
                     0 => "2015083".into(),
                     1 => String::new(),
+                    // the right digits in a form that is not YYYYMMDD
+                    2 => format!(" {}", right),
+                    3 => format!("{} {}", &right[..4], &right[4..]),
+                    4 => format!("{}-{}-{}", &right[..4], &right[4..6], &right[6..]),
+                    5 => format!("+{}", right),
                     _ => refm::yyyymmdd(a.instant_ns + d),
                 };
                 component = "scope";
@@ -574,7 +580,8 @@ pub fn apply_logical(kind: &'static str, m: &mut Message, cx: &FaultCtx, t: &mut
     })
 }
 
-pub const DEFECT_KINDS: [&str; 17] = [
+pub const DEFECT_KINDS: [&str; 18] = [
+    "signed-name-case",
     "bad-path-escape",
     "path-climb",
     "bad-query-escape",
@@ -788,6 +795,11 @@ pub fn apply_defect(kind: &'static str, m: &mut Message, cx: &FaultCtx, t: &mut 
             let mut cands: Vec<String> = Vec::new();
             for p in &cx.node.cfg.prefixes {
                 cands.push(format!("{}injected", p.to_lowercase()));
+                // a header named exactly like the prefix starts with it, too
+                let exact = p.to_lowercase();
+                if !exact.is_empty() && http::header::HeaderName::from_bytes(exact.as_bytes()).is_ok() && !m.logical.headers.iter().any(|(n, _)| *n == exact) {
+                    cands.push(exact);
+                }
             }
             for c in &cx.node.cfg.cond {
                 if !m.logical.headers.iter().any(|(n, _)| *n == c.to_lowercase()) {
@@ -837,6 +849,40 @@ pub fn apply_defect(kind: &'static str, m: &mut Message, cx: &FaultCtx, t: &mut 
                 m.auth.signed.sort();
             }
             // re-sign: the signature over what *is* signed is correct
+            let acct = cx.accounts.iter().find(|x| x.access_key == m.auth.access_key)?;
+            let secret = acct.secret.clone();
+            sign(&m.logical, &mut m.auth, &m.quirks, &secret);
+            m.origin_fp = fingerprint(m, cx.accounts);
+            Rule::Requirement
+        }
+        "signed-name-case" => {
+            // the client lists a required name in another letter case ("Host"): names in the
+            // SignedHeaders list are compared as given, so the requirement is not met — and the
+            // header is not covered by the signature either
+            let mut req: Vec<String> = vec!["host".into()];
+            for a in &cx.node.cfg.always {
+                req.push(a.to_lowercase());
+            }
+            for c in &cx.node.cfg.cond {
+                if m.logical.headers.iter().any(|(n, _)| *n == c.to_lowercase()) {
+                    req.push(c.to_lowercase());
+                }
+            }
+            req.retain(|r| m.auth.signed.contains(r) && r.chars().any(|c| c.is_ascii_lowercase()));
+            if req.is_empty() {
+                return None;
+            }
+            let pick = req[t.below(req.len())].clone();
+            let recased: String = pick.chars().enumerate().map(|(i, c)| if i == 0 || t.chance(3) { c.to_ascii_uppercase() } else { c }).collect();
+            if recased == pick {
+                return None;
+            }
+            for s in m.auth.signed.iter_mut() {
+                if *s == pick {
+                    *s = recased.clone();
+                }
+            }
+            m.auth.signed.sort();
             let acct = cx.accounts.iter().find(|x| x.access_key == m.auth.access_key)?;
             let secret = acct.secret.clone();
             sign(&m.logical, &mut m.auth, &m.quirks, &secret);
